@@ -13,7 +13,7 @@ reads on the cached sessions equal the reads on the plain session; key collision
 import zlib
 
 import common
-from props import c18_cachehist, c18_cachekey, c18_consolidate, c18_sessions
+from props import c18_cachehist, c18_cachekey, c18_consolidate, c18_sessions, c18_transport
 from props import clientsim as cs
 
 LEVEL = "proof"
@@ -55,6 +55,7 @@ def explore(ctx, tier, search=False):
     c18_cachehist.explore(ctx, "thorough" if search else tier)
     c18_consolidate.explore(ctx, "thorough" if search else tier)
     c18_sessions.explore(ctx, "thorough" if search else tier)
+    c18_transport.explore(ctx, "thorough" if search else tier)
 
 
 def run(ctx):
@@ -86,6 +87,8 @@ def replay(payload):
         print("nothing to replay: %s" % payload.get("no_longer_checks"))
         return False
     c = f["case"]
+    if "transport" in c:
+        return c18_transport.replay_case(c)
     if "history" in c:
         return c18_cachehist.replay_case(c)
     if "process" in c:
